@@ -465,15 +465,18 @@ class Body:
                 out.write('    %s\n' % k)
 
 
-def _renumber(x, off_l, off_b):
-    """deep copy of a piece of body JSON with local indices shifted by off_l and block indices by off_b"""
+def _renumber(x, off_l, off_b, off_p=0):
+    """deep copy of a piece of body JSON with local indices shifted by off_l, block indices by off_b and references to
+    promoted constants by off_p"""
     if isinstance(x, list):
-        return [_renumber(v, off_l, off_b) for v in x]
+        return [_renumber(v, off_l, off_b, off_p) for v in x]
     if not isinstance(x, dict):
         return x
     out = {}
     for k, v in x.items():
-        if k == 'l' and isinstance(v, int) and not isinstance(v, bool):
+        if k == 'promoted' and isinstance(v, int) and not isinstance(v, bool):
+            out[k] = v + off_p                     # index into the body's list of promoted constants
+        elif k == 'l' and isinstance(v, int) and not isinstance(v, bool):
             out[k] = v + off_l                     # place local
         elif k == 'idx' and isinstance(v, int) and not isinstance(v, bool) and set(x.keys()) <= {'idx'}:
             out[k] = v + off_l                     # Index(local) projection element
@@ -482,7 +485,7 @@ def _renumber(x, off_l, off_b):
         elif k == 'targets' and isinstance(v, list):
             out[k] = [dict(t, bb=t['bb'] + off_b) for t in v]
         else:
-            out[k] = _renumber(v, off_l, off_b)
+            out[k] = _renumber(v, off_l, off_b, off_p)
     return out
 
 
@@ -569,6 +572,7 @@ def _thread_result_returns(j, cj, off_b, off_l, call_t):
             s2['term'] = {'k': 'goto', 'target': edge, 'span': st_.get('span'), 'threaded': variant}
             t2 = json.loads(json.dumps(tb))
             t2['term']['target'] = len(blocks) + 1
+            t2['term']['threaded'] = variant      # this `?` is known to take the Continue (Ok) / Break (Err) edge
             block_obj['term']['target'] = len(blocks)
             blocks.extend([t2, s2])
         elif tt.get('k') == 'switch':
@@ -646,7 +650,9 @@ def inline_helpers(body, is_helper, depth=2, max_blocks=4000):
         if len(t['args']) != cb.nargs:
             continue
         off_l, off_b = len(j['locals']), len(j['blocks'])
-        cj = _renumber(cb.j['blocks'], off_l, off_b)
+        off_p = len(j.setdefault('promoted', []))
+        j['promoted'].extend(json.loads(json.dumps(cb.j.get('promoted', []))))
+        cj = _renumber(cb.j['blocks'], off_l, off_b, off_p)
         j['locals'].extend(json.loads(json.dumps(cb.j['locals'])))
         sp = t.get('span')
         for i, a in enumerate(t['args']):
@@ -792,8 +798,17 @@ def apply_fn_aliases(j):
             continue
         # moved to another module (same name, same signature), unambiguously
         name = p.rsplit('::', 1)[1]
+        import re as _re
+
+        def short_sig(ins, out):
+            # types compared by their last path segment: the function may have moved together with its type
+            return [_re.sub(r'(?:[A-Za-z_][A-Za-z0-9_]*::)+', '', x) for x in list(ins) + [out]]
+        wsig = short_sig(want['inputs'], want['output'])
+        # `Type::method`: the type's name must stay the same too
+        owner = p.rsplit('::', 2)[-2] if p.count('::') >= 1 else ''
         moved = [q for q, fn in present.items() if q not in tab and q not in taken and fn.get('vis') != 'pub' and '{' not in q and
-                 q.rsplit('::', 1)[1] == name and fn.get('inputs', []) == want['inputs'] and fn.get('output', '') == want['output']]
+                 q.rsplit('::', 1)[1] == name and short_sig(fn.get('inputs', []), fn.get('output', '')) == wsig and
+                 (not owner[:1].isupper() or (q.rsplit('::', 2)[-2] if q.count('::') >= 1 else '').split('<')[0] == owner.split('<')[0])]
         same_name_missing = [m for m in missing if m != p and m.rsplit('::', 1)[1] == name and tab[m] == want]
         if len(moved) == 1 and not same_name_missing:
             amap[moved[0]] = p
@@ -1017,8 +1032,13 @@ class Facts:
         return [b for b in self.body_list if b.id.endswith(suffix)]
 
     def closures_of(self, body):
-        pre = body.id + '::{closure#'
-        return [b for b in self.body_list if b.id.startswith(pre)]
+        """closures defined in the body - and in the helpers that were spliced into it (see _inline_new_helpers)"""
+        pres = [body.id + '::{closure#']
+        for blk in body.blocks:
+            src = blk.get('inlined_from')
+            if src and src + '::{closure#' not in pres:
+                pres.append(src + '::{closure#')
+        return [b for b in self.body_list if b.id.startswith(tuple(pres))]
 
 
 def callee_name(t):
